@@ -180,8 +180,8 @@ func c18w(c *ctx) {
 			for _, fa := range []int{0, 1, 2} {
 				for ri, rs := range resets {
 					n++
-					if !c.thorough && (n%3 != 0) && fa != 1 {
-						continue
+					if !c.thorough && (n%3 != 0) && fa != 1 && rs.Name != "ResetOp" {
+						continue // (sampled; the ResetOp kinds always run, with a fixed set of suffixes)
 					}
 					if pooled != (rs.Name == "PutGet") && (pooled || rs.Arg == "client/1") {
 						continue // pool-class writers take the pool cycle only; the cycle towards the client side is theirs
@@ -193,7 +193,8 @@ func c18w(c *ctx) {
 						continue // (budget: ResetOp on the two small configurations, destination healthy or failing at write 1)
 					}
 					seqs(wSuffixAlphabet, 2, func(sfx []wop) {
-						if !c.thorough && (opsKey(sfx) != "Wr1,Wr1") && (opsKey(sfx) != "Fl,Wr1") && (n+len(opsKey(sfx)))%5 != 0 {
+						fixed := opsKey(sfx) == "Wr1,Wr1" || opsKey(sfx) == "Fl,Wr1" || (rs.Name == "ResetOp" && (opsKey(sfx) == "Fl,Fl" || opsKey(sfx) == "Wr1,Fl" || opsKey(sfx) == "Wr0,Fl"))
+						if !c.thorough && !fixed && (rs.Name == "ResetOp" || (n+len(opsKey(sfx)))%5 != 0) {
 							return
 						}
 						if c.thorough && (opsKey(sfx) != "Wr1,Wr1") && (opsKey(sfx) != "Fl,Wr1") && (n+len(opsKey(sfx)))%2 != 0 {
@@ -382,6 +383,32 @@ func c13w(c *ctx) {
 					t.add(sc, runWriter(sc))
 				}
 			})
+		}
+	}
+	// a writer that carried a compressed message is re-targeted (Reset, or the pool cycle) and used without
+	// an extension: nothing it sends afterwards may carry RSV1; with ResetOp the extension stays
+	for ci, cf := range []wconfig{{"NewWriterBufferSize", 8, "server", 1, true, nil}, {"NewWriterSize", 128, "client", 2, true, nil}, {"NewWriterSize", 128, "server", 1, true, nil}} {
+		for _, reset := range []wop{{"Reset", "server/1", ""}, {"Reset", "client/2", ""}, {"PutGet", "client/1", ""}, {"PutGet", "server/2", ""}, {"ResetOp", "2", ""}} {
+			if reset.Name == "PutGet" && ci == 0 {
+				continue // (GetWriter's size is a buffer size: too small for a client-side header on the 8-byte writer)
+			}
+			for _, first := range []wop{{"Write", "1", ""}, {"Write", "2s+1", ""}, {"WriteThrough", "s+1", ""}} {
+				for _, flushed := range []bool{true, false} {
+					seqs(alpha[:5], 1, func(body []wop) {
+						ops := []wop{{"SetExt", "1", ""}, first}
+						if flushed {
+							ops = append(ops, wop{"Flush", "", ""})
+						}
+						ops = append(ops, reset)
+						ops = append(ops, body...)
+						ops = append(ops, wop{"Flush", "", ""}, wop{"Write", "1", ""}, wop{"Flush", "", ""})
+						sc := wscenario{Key: fmt.Sprintf("rsvreset/%d/%s", ci, opsKey(ops)), Ctor: cf.Ctor, N: cf.N, Side: cf.Side, Op: cf.Op, Ops: ops, Ext: true}
+						if vh.Only(sc.Key) {
+							t.add(sc, runWriter(sc))
+						}
+					})
+				}
+			}
 		}
 	}
 	t.finish(c)
